@@ -55,6 +55,7 @@ type ReqSpec struct {
 	Chunk     simenv.ChunkPlan `json:"chunk,omitempty"`
 	GetBody   string           `json:"get_body,omitempty"` // "" | ok | err
 	CLUnknown bool             `json:"cl_unknown,omitempty"`
+	CLZero    bool             `json:"cl_zero,omitempty"` // ContentLength 0 with a non-nil body: "unknown" for client-style requests (net/http)
 }
 
 type RespSpec struct {
@@ -294,13 +295,13 @@ func Gen(seed uint64, prop, tier string) *Spec {
 	rq := "RQ" + s.Marker
 	d := &s.Doc
 	// security
-	shapes := []string{"", "", "single", "or", "and", "or3", "and_or", "empty_req", "or_empty", "empty_list", "undecl_or", "undecl_and", "undecl_only"}
+	shapes := []string{"", "", "single", "or", "and", "or3", "and_or", "empty_req", "or_empty", "empty_list", "undecl_or", "undecl_and", "undecl_only", "scopes_or", "scopes_or_rev", "scopes_mix"}
 	d.SecOp = simfw.Pick(r, shapes)
 	d.SecDoc = simfw.Pick(r, []string{"", "", "single", "or", "and", "empty_list", "undecl_or"})
 	if prop == "C07" && d.SecOp == "" && d.SecDoc == "" {
 		d.SecOp = simfw.Pick(r, shapes[2:])
 	}
-	modes := []string{"ok", "ok", "fail", "read_ok", "read_fail", "part_ok", "part_fail", "sig", "sig", "close_ok"}
+	modes := []string{"ok", "ok", "fail", "read_ok", "read_fail", "part_ok", "part_fail", "sig", "sig", "close_ok", "scoped", "scoped"}
 	s.Auth = map[string]string{"a": simfw.Pick(r, modes), "b": simfw.Pick(r, modes), "c": simfw.Pick(r, modes)}
 	// parameters
 	seen := map[string]bool{}
@@ -474,6 +475,7 @@ func Gen(seed uint64, prop, tier string) *Spec {
 		}
 		q.GetBody = simfw.Pick(r, []string{"", "", "ok", "err"})
 		q.CLUnknown = r.Chance(1, 4)
+		q.CLZero = !q.CLUnknown && r.Chance(1, 6)
 	}
 	// sometimes further requests are in flight: same shape, their own marker and delivery
 	if q.BodyMode == "stream" && q.Chunk.FaultAt == 0 && r.Chance(1, 4) {
